@@ -578,8 +578,8 @@ class Runner:
         """-> (outcome class, exception, model-args dict) or None when the key cannot be built"""
         entry, alg = d["entry"], d["alg"]
         kind = tuple(d["kind"])
-        key = self.test_key(d)
         try:
+            key = self.test_key(d)
             info = key_info(key)
         except ValueError:
             return None
@@ -616,9 +616,9 @@ class Runner:
     def run_jwe(self, d):
         entry, alg, enc = d["entry"], d["alg"], d["enc"]
         kind = tuple(d["kind"])
-        key = self.test_key(d)
-        sender = self.sender_key(d["sender"])
         try:
+            key = self.test_key(d)
+            sender = self.sender_key(d["sender"])
             info = key_info(key)
             sinfo = key_info(sender) if sender is not None else None
         except ValueError:
@@ -856,8 +856,11 @@ def run(ctx):
         if not consistent(use, ops):
             use = None
         kalg = rng.choice([None, "HS256", "RS256", "dir", ""])
-        key = mats.key(kty, p, "a", rng.random() < 0.6, params_of(use, ops, kalg))
-        info = key_info(key)
+        try:
+            key = mats.key(kty, p, "a", rng.random() < 0.6, params_of(use, ops, kalg))
+            info = key_info(key)
+        except ValueError:          # the parameters are refused at import: nothing to gate
+            continue
         which = rng.randrange(3)
         if which == 0:
             u = rng.choice(["sig", "enc"])
@@ -883,14 +886,36 @@ def run(ctx):
         ngate += 1
     dist["gates"] = ngate
 
-    # ---- key import validates use (what key_wf assumes)
+    # ---- key import validates use / key_ops (what key_wf assumes): a declared use is one of
+    # the strings "sig" / "enc", declared key_ops a list of operation names.  A "key_ops"
+    # given as a JSON string would be matched by substring ("wrapKey" in "unwrapKey"), a
+    # "use" given as a list never equals the requested use: both must be refused at import,
+    # through import_key(dict) and through parameters= alike
     from joserfc.jwk import OctKey
-    for bad in ("", "foo", "SIG", 0, None, ["sig"]):
-        o, _ = outcome(lambda: OctKey.import_key({"kty": "oct", "k": "AAAA", "use": bad}))
-        if o == "ok":
-            ctx.notes.append("key import accepted use=%r (key_wf assumes a declared use is a non-empty string)" % (bad,))
-            if bad == "":
-                ctx.violation({"kind": "import-accepts-empty-use"}, "OctKey.import_key accepted use=''", {"use": bad})
+    bad_params = [("use", v) for v in ("", "foo", "SIG", 0, ["sig"], ["sig", "enc"], [])] + \
+                 [("key_ops", v) for v in ("sign", "unwrapKey", "wrapKey", "", ["foo"], [1], {"sign": 1}, ("sign",))]
+    nimp = 0
+    for name, bad in bad_params:
+        for how, f in (("import_key(dict)", lambda: OctKey.import_key({"kty": "oct", "k": "AAAA", name: bad})),
+                       ("import_key(bytes, parameters=)", lambda: OctKey.import_key(b"0123456789abcdef", {name: bad}).dict_value),
+                       ("generate_key(parameters=)", lambda: OctKey.generate_key(128, {name: bad}).dict_value)):
+            o, _ = outcome(f)
+            nimp += 1
+            ctx.note_case(("import", name, repr(bad), how))
+            if o == "ok":
+                ctx.violation({"kind": "import-accepts-malformed-" + name, "value": repr(bad)},
+                              "OctKey %s accepted %s=%r (a declared use must be 'sig' or 'enc', declared key_ops a list "
+                              "of operation names)" % (how, name, bad), {"param": name, "value": repr(bad), "how": how})
+            elif o != "EValue":
+                ctx.violation({"kind": "import-malformed-" + name + "-error-class", "cls": o},
+                              "OctKey %s refused %s=%r with %s instead of ValueError" % (how, name, bad, o),
+                              {"param": name, "value": repr(bad), "how": how})
+    for name, good in (("use", "sig"), ("use", "enc"), ("key_ops", []), ("key_ops", ["sign"]), ("key_ops", list(ALL_OPS))):
+        o, _ = outcome(lambda: OctKey.import_key({"kty": "oct", "k": "AAAA", name: good}))
+        nimp += 1
+        if o != "ok":
+            ctx.notes.append("key import refused the well-formed %s=%r (%s)" % (name, good, o))
+    dist["import_validation"] = nimp
 
     # ---- unsafe symmetric secrets
     nwarn = 0
@@ -917,14 +942,8 @@ def run(ctx):
             gaps[g] = gaps.get(g, 0) + 1
     dist["unsafe_import"] = nwarn
 
-    # ---- candidate probes (recorded, not raised)
-    probes = {}
-    k_s = OctKey.import_key({"kty": "oct", "k": base64.urlsafe_b64encode(b"0123456789abcdef").decode().rstrip("="),
-                             "key_ops": "unwrapKey"})
-    o1, _ = outcome(lambda: k_s.check_key_op("wrapKey"))
-    probes["key_ops given as the JSON string 'unwrapKey': import accepted; check_key_op('wrapKey')"] = o1
-    ctx.notes.append("candidates (not raised): %s" % json.dumps(
-        {"unsafe-import gaps (no warning)": gaps, **probes}))
+    # ---- recorded gaps (not raised)
+    ctx.notes.append("recorded gaps (not raised): %s" % json.dumps({"unsafe-import (no warning)": gaps}))
 
     ctx.coverage["input_distribution"] = dist
     ctx.coverage["verdict_classes"] = verdicts
@@ -965,8 +984,9 @@ def run(ctx):
         "cryptographic primitives (hmac.new, pyca sign/verify/encrypt/decrypt/exchange, AES key wrap, PBKDF2) are not modelled: "
         "a Section variable `prim` with the type contract `prim_contract` (raises on a native of the wrong kind), used only by the "
         "theorems named *_by_contract; whether the key material matches the token is the boolean `mat`",
-        "key_wf: a declared use is a non-empty string, key_ops a list, curve names those of the key's class (validated by key import; "
-        "import of use '' / 'foo' is checked to be refused in this run)",
+        "key_wf: a declared use is a non-empty string, key_ops a list, curve names those of the key's class (validated by key import: "
+        "c06_table_key_params reads the validators off the registry table, and this run requires import to refuse use '' / 'foo' / a list "
+        "and key_ops given as a string)",
         "the order and presence of the gates on each entry point is transcribed by hand in model/C06Model.v and validated by the "
         "differential run only",
     ]
